@@ -19,6 +19,11 @@ noncomputable instance instHasPiReal : HasPi ℝ := ⟨Real.pi⟩
 
 @[simp] theorem hasPi_real : (HasPi.pi : ℝ) = Real.pi := rfl
 
+noncomputable instance instHasSinLog1pReal : HasSinLog1p ℝ := ⟨Real.sin, fun x => Real.log (1 + x)⟩
+
+@[simp] theorem hasSin_real (x : ℝ) : (HasSinLog1p.sin x : ℝ) = Real.sin x := rfl
+@[simp] theorem hasLog1p_real (x : ℝ) : (HasSinLog1p.log1p x : ℝ) = Real.log (1 + x) := rfl
+
 theorem lit1 : (1.0 : ℝ) = 1 := by norm_num
 theorem lit2 : (2.0 : ℝ) = 2 := by norm_num
 theorem lit0 : (0.0 : ℝ) = 0 := by norm_num
@@ -237,6 +242,20 @@ theorem middleTerm_eq (m : Mat ℝ) (s L : ℝ) :
       (if uTerm m s L ≠ 0 then 2 / (uTerm m s L * uTerm m s L) else 1)
         * Real.log (if 0 < Real.cos (uTerm m s L) then 1 / Real.cos (uTerm m s L) else 1)
         + ratio s L * ratio s L - ratio s L := by
-  simp only [middleTerm, nz_iff, transc_log, transc_cos, lit0, lit1, lit2]
+  have hlog : Real.log (1 + (if 0 < Real.cos (uTerm m s L)
+        then 2 * (Real.sin (uTerm m s L / 2) * Real.sin (uTerm m s L / 2)) / Real.cos (uTerm m s L) else 0))
+      = Real.log (if 0 < Real.cos (uTerm m s L) then 1 / Real.cos (uTerm m s L) else 1) := by
+    split_ifs with hc
+    · congr 1
+      have h2 : Real.cos (uTerm m s L) = 1 - 2 * (Real.sin (uTerm m s L / 2) * Real.sin (uTerm m s L / 2)) := by
+        have := Real.cos_sq_add_sin_sq (uTerm m s L / 2)
+        have h3 := Real.cos_two_mul (uTerm m s L / 2)
+        rw [show 2 * (uTerm m s L / 2) = uTerm m s L by ring] at h3
+        nlinarith [Real.sin_sq_add_cos_sq (uTerm m s L / 2)]
+      field_simp
+      linarith
+    · simp
+  simp only [middleTerm, nz_iff, transc_cos, hasSin_real, hasLog1p_real, lit0, lit1, lit2]
+  rw [hlog]
 
 end PylifeVerif.Notch
